@@ -56,6 +56,14 @@ func init() {
 	probes["O53"] = probeO53
 	probes["O54"] = probeO54
 	probes["O55"] = probeO55
+	probes["O67"] = func() (bool, string) {
+		return guard(func() (bool, string) {
+			c, _ := ucfg.NewFrom(map[string]interface{}{"c": "${nope}"}, append(append([]ucfg.Option{}, sepVar...), ucfg.MetaData(ucfg.Meta{Source: "f.yml"}))...)
+			_, err := c.CountField("c", sepVar...)
+			e, ok := err.(ucfg.Error)
+			return !ok || e.Reason() == nil || !strings.Contains(err.Error(), "'c'") || !strings.Contains(err.Error(), "f.yml"), fmt.Sprint(err)
+		})
+	}
 	probes["O66"] = func() (bool, string) {
 		return guard(func() (bool, string) {
 			c, _ := ucfg.NewFrom(map[string]interface{}{"a": []int{3}})
